@@ -113,7 +113,7 @@ package limit
 //@   ensures [C12] gInN == gOutN && (result <==> gClosed)
 //@   loop 0
 //@     invariant [*] WF(dsc)
-//@     invariant [* C04 C12] gBatch == $i && gOutN == old(gOutN) + gBatch && gClock >= old(gClock)
+//@     invariant [* C04 C12] gBatch == $i && gBatch <= gQ && gOutN == old(gOutN) + gBatch && gClock >= old(gClock)
 //@     invariant [C04] PACE(dsc)
 //@     invariant [C12] gInN == gOutN && !gClosed
 
